@@ -16,9 +16,12 @@ ASSUMPTIONS = ["reference output = range.fun2par(F(domain.par2fun(p))) computed 
                "reference gradient = central-difference Jacobian of p -> forward(p) (step 1e-6, tolerance 1e-5 relative)"]
 
 
+_USER_CLASSES = {}     # the user's geometry classes are defined once (two geometries of one class with equal attributes are equal)
+
+
 def user_geometry(n, raw=False):
     import cuqi
-    if raw:
+    if not _USER_CLASSES:
         class UserGeomRaw(cuqi.geometry.Continuous1D):
             """the same geometry written as plain array expressions (whatever array type comes in goes through the arithmetic)"""
 
@@ -30,20 +33,20 @@ def user_geometry(n, raw=False):
 
             def gradient(self, direction, wrt):
                 return direction * 0.5 * np.exp(0.5 * wrt)
-        return UserGeomRaw(n)
 
-    class UserGeom(cuqi.geometry.Continuous1D):
-        """a user-defined geometry that supplies the derivative of its own par2fun"""
+        class UserGeom(cuqi.geometry.Continuous1D):
+            """a user-defined geometry that supplies the derivative of its own par2fun"""
 
-        def par2fun(self, p):
-            return np.exp(0.5 * np.asarray(p))
+            def par2fun(self, p):
+                return np.exp(0.5 * np.asarray(p))
 
-        def fun2par(self, f):
-            return 2.0 * np.log(np.asarray(f))
+            def fun2par(self, f):
+                return 2.0 * np.log(np.asarray(f))
 
-        def gradient(self, direction, wrt):
-            return np.asarray(direction) * 0.5 * np.exp(0.5 * np.asarray(wrt))
-    return UserGeom(n)
+            def gradient(self, direction, wrt):
+                return np.asarray(direction) * 0.5 * np.exp(0.5 * np.asarray(wrt))
+        _USER_CLASSES.update(raw=UserGeomRaw, plain=UserGeom)
+    return _USER_CLASSES["raw" if raw else "plain"](n)
 
 
 def user_mapped_geometry(spec):
